@@ -170,7 +170,7 @@ pub fn all() -> Vec<Prop> {
             id: "C12",
             run: props::hist::run_c12,
             replayers: props::hist::replayers_c12,
-            rule: "proptest: element type (i32, i64, u32, usize within +-MAX/4; N64) x strategy (Sqrt, Rice, Sturges, FreedmanDiaconis, Auto) x data of length 0..400 (quick) / 10^4 (thorough) from classes k/d grids (inexact in binary), large offset + spread down to single ulps, heavy ties (zero IQR) with outliers, moderate values, constant, empty; 1 column through from_array, 1-3 columns through GridBuilder followed by histogram. Domain precondition (counted as discarded): (max-min)/bin_width() <= 1e5. Termination is decided by a fuel budget of 64*(bins+2)+1000 iterations of the counting loop (hook), not by a clock. Oracle: empty => EmptyInput, constant => Strategy; accepted => first edge == min, equal widths (ints exactly, N64 within 2 ulp of max(largest |edge|, last edge - first edge): the documented min + i*width rounds the product at its own magnitude), last edge > max and last - max <= width, every observation in exactly one bin, histogram total == n, n_bins() == bins built (N64: when width >= 4 ulp of that magnitude). Distinct by hash. Non-trivial: accepted, >= 3 distinct values and (N64, or integer width >= 2, or span >= 2^20).",
+            rule: "proptest: element type (i32, i64, u32, usize within +-MAX/4; N64) x strategy (Sqrt, Rice, Sturges, FreedmanDiaconis, Auto) x data of length 0..400 (quick) / 4000 (thorough) from classes k/d grids (inexact in binary), large offset + spread down to single ulps, heavy ties (zero IQR) with outliers, moderate values, constant, empty; 1 column through from_array, 1-3 columns through GridBuilder followed by histogram. Domain precondition (counted as discarded): (max-min)/bin_width() <= 1e5. Termination is decided by a fuel budget of 64*(bins+2)+1000 iterations of the counting loop (hook), not by a clock. Oracle: empty => EmptyInput, constant => Strategy; accepted => first edge == min, equal widths (ints exactly, N64 within 2 ulp of max(largest |edge|, last edge - first edge): the documented min + i*width rounds the product at its own magnitude), last edge > max and last - max <= width, every observation in exactly one bin, histogram total == n, n_bins() == bins built (N64: when width >= 4 ulp of that magnitude). Distinct by hash. Non-trivial: accepted, >= 3 distinct values and (N64, or integer width >= 2, or span >= 2^20).",
             assumptions: COMMON_ASSUMPTIONS,
             profiles_quick: BOTH,
             profiles_thorough: BOTH,
